@@ -61,7 +61,9 @@ pub fn generics(
 }
 
 /// A class may not be its own ancestor, looking up its members would never end.
-fn inheritance_is_acyclic(types: &HashSet<GenericClass>) -> TypeResult<()> {
+///
+/// Built-in classes count as well: a user class may have the name of a built-in ancestor of its parent.
+pub fn inheritance_is_acyclic(types: &HashSet<GenericClass>) -> TypeResult<()> {
     fn reaches(
         from: &GenericClass,
         target: &str,
@@ -89,12 +91,13 @@ fn inheritance_is_acyclic(types: &HashSet<GenericClass>) -> TypeResult<()> {
 
     let errs: Vec<TypeErr> = types
         .iter()
+        .filter(|ty| !ty.is_py_type)
         .filter(|ty| reaches(ty, &ty.name.name, types, &mut HashSet::new()))
         .map(|ty| {
             let msg = format!("Cyclic inheritance: {} is its own ancestor", ty.name);
             TypeErr::new(ty.pos, &msg)
         })
-        .chain(types.iter().filter(generic_parent).map(|ty| {
+        .chain(types.iter().filter(|ty| !ty.is_py_type).filter(generic_parent).map(|ty| {
             let msg = format!("{} cannot inherit from its own generic parameter", ty.name);
             TypeErr::new(ty.pos, &msg)
         }))
